@@ -88,6 +88,7 @@ def verify_function(eng, qualname):
             for label, clause in c.labelled(c.ensures, 'post'):
                 t = eval_bool(eng, clause, env, s, old=old)
                 eng.oblige(s, "post:%s" % label, 'post', t, fdef)
+                s.assume(t)     # later clauses may use earlier ones (each is an obligation of its own)
             # vacuity canary: the hypotheses accumulated on (at least one) return path must be satisfiable
             eng.oblige(s, "cover:return", 'cover', z3.BoolVal(False), fdef, expect_sat=True)
             for exc, cond in c.raises.items():
